@@ -157,6 +157,23 @@ def scan_items(toks):
                     items[key] = Item('const', key, toks[i + 3:j])
                 i = j + 1
                 continue
+            if k == 'id' and v in ('struct', 'enum') and toks[i + 1][0] == 'id':
+                # struct Name<..> { fields }   /  enum Name { Variant = disc, .. }   (tuple / unit structs skipped)
+                name = toks[i + 1][1]
+                j = i + 2
+                while toks[j][1] not in ('{', ';', '('):
+                    j += 1
+                if toks[j][1] == '{':
+                    end = match_close(toks, j)
+                    key = v + ' ' + name
+                    if key not in items:
+                        items[key] = Item(v, key, toks[j + 1:end])
+                    i = end + 1
+                elif toks[j][1] == '(':
+                    i = match_close(toks, j) + 1
+                else:
+                    i = j + 1
+                continue
             if k == 'id' and v == 'fn':
                 name = toks[i + 1][1]
                 j = i + 2
@@ -396,6 +413,22 @@ class P:
                     segs.append(('tf', t))
                 else:
                     segs.append(self.eat())
+            if self.peek() == '{' and not nostruct and isinstance(segs[-1], str) and segs[-1][:1].isupper() \
+                    and not segs[-1].isupper():
+                # struct literal  Name { field: expr, shorthand, .. }
+                self.eat()
+                fs = []
+                while self.peek() != '}':
+                    fn_ = self.eat()
+                    if self.peek() == ':':
+                        self.eat()
+                        fs.append((fn_, self.expr()))
+                    else:
+                        fs.append((fn_, ('path', [fn_])))
+                    if self.peek() == ',':
+                        self.eat()
+                self.eat('}')
+                return ('struct', segs[-1], fs)
             return ('path', segs)
         raise TranslateError('unexpected token %r' % (v,))
 
@@ -459,11 +492,40 @@ class P:
                 continue
             if v in ('loop', 'match'):
                 raise TranslateError('%s not supported' % v)
+            if v in ('assert!', 'debug_assert!', 'assert_eq!', 'debug_assert_eq!', 'assert_ne!', 'debug_assert_ne!'):
+                # assert!(cond, "message", args..): the condition becomes part of `_ok`; the message is dropped
+                self.eat()
+                if self.peek() != '(':
+                    raise TranslateError('%s without parentheses' % v)
+                close = match_close(self.t, self.i)
+                sub = P(self.t[self.i + 1:close])
+                c = sub.expr()
+                if v.rstrip('!').endswith('_eq') or v.rstrip('!').endswith('_ne'):
+                    sub.eat(',')
+                    c = ('bin', '==' if v.rstrip('!').endswith('_eq') else '!=', c, sub.expr())
+                if not sub.at_end() and sub.peek() != ',':
+                    raise TranslateError('%s: unexpected %r after the condition' % (v, sub.peek()))
+                self.i = close + 1
+                if self.peek() == ';':
+                    self.eat()
+                stmts.append(('assert', c))
+                continue
+            if v == 'const' and self.kind(1) == 'id' and self.peek(2) == ':':
+                # a `const` local to the function body is a `let`
+                self.eat()
+                nm = self.eat()
+                self.eat(':')
+                t = self.ty()
+                self.eat('=')
+                e = self.expr()
+                self.eat(';')
+                stmts.append(('let', ('pvar', nm), t, e))
+                continue
             e = self.expr()
             nv = self.peek()
             if nv == '..':      # range expression statement is not expected
                 raise TranslateError('range expr')
-            if self.kind() == 'op' and nv in ('=', '+=', '-=', '*=', '>>=', '<<=', '^=', '&=', '|='):
+            if self.kind() == 'op' and nv in ('=', '+=', '-=', '*=', '/=', '%=', '>>=', '<<=', '^=', '&=', '|='):
                 op = self.eat()
                 r = self.expr()
                 self.eat(';')
@@ -485,6 +547,31 @@ class P:
 
 def parse_fn(item):
     p = P(item.toks)
+    name, params, ret = parse_sig(p)
+    body = p.block()
+    return name, params, ret, body
+
+def parse_struct(item):
+    """[(field, type)] of a `struct Name { .. }` item, in declaration order."""
+    p = P(item.toks)
+    fields = []
+    while not p.at_end():
+        if p.peek() == '#':
+            p.eat()
+            p.i = match_close(p.t, p.i) + 1
+            continue
+        if p.peek() == 'pub':
+            p.eat()
+            if p.peek() == '(':
+                p.i = match_close(p.t, p.i) + 1
+        fn_ = p.eat()
+        p.eat(':')
+        fields.append((fn_, p.ty()))
+        if not p.at_end():
+            p.eat(',')
+    return fields
+
+def parse_sig(p):
     name = p.eat()
     if p.peek() == '<':
         d = 0
@@ -519,8 +606,7 @@ def parse_fn(item):
     if p.peek() == '->':
         p.eat()
         ret = p.ty()
-    body = p.block()
-    return name, params, ret, body
+    return name, params, ret
 
 def parse_const(item):
     p = P(item.toks)
@@ -659,6 +745,8 @@ class FnEmitter:
         self.hints = {}                 # rust var -> rust type, for `let` bindings of untyped literals
         self.nloops = 0
         self.fuelvar = None             # lean name of the fuel parameter once a loop has been seen
+        self.selftype = None            # name of the struct `Self` stands for (object-typed receivers only)
+        self.lifted = {}                # root param -> {lean-ish name: rust type} of lifted accessor values
 
     # ---- naming
     def fresh(self, base):
@@ -710,6 +798,12 @@ class FnEmitter:
     # ---- type helpers
     def norm_ty(self, t):
         if isinstance(t, str):
+            if t == 'Self' and self.selftype is not None:
+                t = self.selftype
+            if t in self.mod.enums:
+                return 'u8'         # a fieldless enum is its discriminant (`as u8` / `as u32` are the identity)
+            if t in self.mod.structs:
+                return ('agg', [self.norm_ty(ft) for (_fn, ft) in self.mod.struct_fields(t)])
             if t in ('Self', self.mod.ftype, 'BaseElement', 'Self::BaseField', 'B'):
                 return 'F'
             if t in INT_TYPES or t == 'bool':
@@ -755,6 +849,11 @@ class FnEmitter:
             if len(segs) == 1 and segs[0] in env:
                 return env[segs[0]]
             name = segs[-1]
+            if len(segs) == 2 and segs[0] in INT_TYPES and is_unsigned(segs[0]) and name in ('MAX', 'BITS', 'MIN'):
+                w = INT_TYPES[segs[0]]
+                if name == 'BITS':
+                    return self.lit(w, 'u32')
+                return self.lit((1 << w) - 1 if name == 'MAX' else 0, segs[0])
             if name in ('ZERO', 'ONE') and segs[0] in ('Self', self.mod.ftype, 'BaseElement'):
                 return self.f_new(self.lit(0 if name == 'ZERO' else 1, 'u64'))
             if isinstance(name, str) and name in self.mod.consts:
@@ -770,6 +869,15 @@ class FnEmitter:
             if isinstance(want, tuple):
                 wants = want[1]
             return SV(items=[self.ev(x, env, w) for x, w in zip(e[1], wants)])
+        if k == 'struct':
+            sname = self.selftype if (e[1] == 'Self' and self.selftype is not None) else e[1]
+            if sname not in self.mod.structs:
+                raise TranslateError('struct literal of unregistered type %s' % sname)
+            decl = self.mod.struct_fields(sname)
+            given = dict(e[2])
+            if len(given) != len(e[2]) or set(given) != set(fn for fn, _ in decl):
+                raise TranslateError('struct literal %s: fields differ from the declaration' % sname)
+            return SV(items=[self.ev(given[fn], env, self.norm_ty(ft)) for fn, ft in decl])
         if k == 'repeat':
             n = const_eval(e[2], self.mod.consts)
             x = self.ev(e[1], env, want[1][0] if isinstance(want, tuple) else None)
@@ -874,7 +982,18 @@ class FnEmitter:
             try:
                 kk = const_eval_env(b, env, self.mod.consts)
             except TranslateError:
-                raise TranslateError('non-constant shift amount')
+                # shift by a computed amount: panics in the checked build when the amount is >= the width
+                if x.agg or not is_unsigned(x.ty):
+                    raise TranslateError('non-constant shift of a non-unsigned value')
+                y = self.ev(b, env, None)
+                if y.agg or not is_unsigned(y.ty):
+                    raise TranslateError('non-constant shift amount of type %s' % (y.ty,))
+                w = INT_TYPES[x.ty]
+                fv = x.fv | y.fv
+                self.ok('%s < %d' % (paren(y.e), w), fv)
+                if op == '<<':
+                    return SV('%s * 2 ^ %s %% %s' % (paren(x.e), paren(y.e), P2(w)), x.ty, fv)
+                return SV('%s / 2 ^ %s' % (paren(x.e), paren(y.e)), x.ty, fv)
             w = INT_TYPES[x.ty]
             if not (0 <= kk < w):
                 raise TranslateError('shift amount %d out of range for %s' % (kk, x.ty))
@@ -976,6 +1095,35 @@ class FnEmitter:
         Pw = P2(w)
         if name == 'wrapping_neg':
             return SV('(%s - %s) %% %s' % (Pw, paren(x.e), Pw), x.ty, x.fv)
+        if name in INT_METHODS0:
+            if args:
+                raise TranslateError('method %s takes no arguments' % name)
+            if name == 'ilog2':
+                self.ok('%s ≠ 0' % paren(x.e), x.fv)
+                return SV('Nat.log2 %s' % paren(x.e), 'u32', x.fv)
+            if name == 'is_power_of_two':
+                return SV('isPow2 %s = true' % paren(x.e), 'bool', x.fv)
+            if name == 'next_power_of_two':
+                self.ok('nextPow2 %s < %s' % (paren(x.e), Pw), x.fv)
+                return SV('nextPow2 %s' % paren(x.e), x.ty, x.fv)
+            if name == 'leading_zeros':
+                return SV('clz %d %s' % (w, paren(x.e)), 'u32', x.fv)
+            if name == 'trailing_zeros':
+                return SV('ctz %d %s' % (w, paren(x.e)), 'u32', x.fv)
+            if name == 'reverse_bits':
+                return SV('revBits %d %s' % (w, paren(x.e)), x.ty, x.fv)
+            if name == 'count_zeros':
+                if x.e != '0':
+                    raise TranslateError('count_zeros of a non-zero value')
+                return self.lit(w, 'u32')
+        if name in ('wrapping_shr', 'wrapping_shl'):
+            y = self.ev(args[0], env, 'u32')
+            if y.ty != 'u32':
+                raise TranslateError('%s: amount of type %s' % (name, y.ty))
+            fv = x.fv | y.fv
+            if name == 'wrapping_shr':
+                return SV('%s / 2 ^ (%s %% %d)' % (paren(x.e), paren(y.e), w), x.ty, fv)
+            return SV('%s * 2 ^ (%s %% %d) %% %s' % (paren(x.e), paren(y.e), w, Pw), x.ty, fv)
         y = self.ev(args[0], env, x.ty)
         if y.ty != x.ty:
             raise TranslateError('%s: operand types %s / %s' % (name, x.ty, y.ty))
@@ -992,6 +1140,10 @@ class FnEmitter:
         if name == 'overflowing_sub':
             return SV(items=[SV('(%s + %s - %s) %% %s' % (paren(x.e), Pw, paren(y.e), Pw), x.ty, fv),
                              SV('%s < %s' % (paren(x.e), paren(y.e)), 'bool', fv)])
+        if name == 'saturating_sub':
+            return SV('%s - %s' % (paren(x.e), paren(y.e)), x.ty, fv)      # truncated subtraction on Nat
+        if name in ('min', 'max'):
+            return SV('%s %s %s' % (name, paren(x.e), paren(y.e)), x.ty, fv)
         raise TranslateError('method %s' % name)
 
     def call(self, e, env, want):
@@ -1010,6 +1162,16 @@ class FnEmitter:
         if name == 'from' and segs[0] in ('Self', self.mod.ftype, 'BaseElement'):
             x = self.ev(args[0], env, None)
             return self.f_new(self.cast(x, self.mod.rawty))
+        if name in ('min', 'max') and len(segs) >= 2 and segs[-2] == 'cmp' and len(args) == 2:
+            if args[0][0] == 'int' and args[0][2] is None:
+                y = self.ev(args[1], env, want)
+                x = self.ev(args[0], env, y.ty)
+            else:
+                x = self.ev(args[0], env, want)
+                y = self.ev(args[1], env, x.ty)
+            if x.agg or y.agg or x.ty != y.ty or x.ty not in INT_TYPES:
+                raise TranslateError('cmp::%s of %s and %s' % (name, x.ty, y.ty))
+            return SV('%s %s %s' % (name, paren(x.e), paren(y.e)), x.ty, x.fv | y.fv)
         key = '::'.join(s for s in segs if isinstance(s, str))
         sig = self.mod.sigs.get(key) or self.mod.sigs.get(name)
         if sig is None:
@@ -1170,6 +1332,9 @@ class FnEmitter:
                     self.ifstmt(ex, env)
                 else:
                     raise TranslateError('expression statement')
+            elif k == 'assert':
+                cv = self.ev(st[1], env, 'bool')
+                self.ok(cv.e, cv.fv)
             elif k == 'while':
                 self.whilestmt(st[1], st[2], env)
             elif k == 'for':
@@ -1259,6 +1424,7 @@ class FnEmitter:
     def sub_emitter(self, suffix, names, env):
         em = FnEmitter(self.mod, self.name + suffix, [], None, None, self.generic_f)
         em.hints = self.hints
+        em.selftype = self.selftype
         em.pvars = []
         sub = {}
         pmap = {}
@@ -1266,7 +1432,7 @@ class FnEmitter:
             sv = env[n]
             if sv.agg:
                 raise TranslateError('aggregate %s live across a loop' % n)
-            psv = em.param_sv(n, sv.ty)
+            psv = em.param_sv(n.lstrip('@'), sv.ty)
             sub[n] = psv
             pmap[n] = list(psv.fv)[0]
         for n, v in env.items():
@@ -1388,13 +1554,71 @@ class FnEmitter:
             return a
         return self.merge(cv, a, b)
 
+    # ---- object-typed parameters
+    def objref(self, e, roots):
+        """(root, chain name, rust type) when `e` is a chain of zero-argument method calls / named field
+        accesses rooted at an object-typed parameter, else None."""
+        k = e[0]
+        if k == 'path' and len(e[1]) == 1 and e[1][0] in roots:
+            return (e[1][0], 'self' if e[1][0] == 'self' else e[1][0], roots[e[1][0]])
+        if (k == 'method' and not e[3] and e[4] is None) or (k == 'field' and isinstance(e[2], str)):
+            r = self.objref(e[1], roots)
+            if r is None or not self.mod.is_obj(r[2]):
+                return None
+            t = self.mod.method_type(r[2], e[2]) if k == 'method' else self.mod.field_type(r[2], e[2])
+            return (r[0], r[1] + '_' + e[2], t)
+        return None
+
+    def lift(self, e, roots):
+        if isinstance(e, list):
+            return [self.lift(x, roots) for x in e]
+        if not isinstance(e, tuple) or not e or not isinstance(e[0], str):
+            return e
+        if e[0] == 'pvar' and e[1] in roots:
+            raise TranslateError('local %s shadows an object-typed parameter' % e[1])
+        if e[0] in ('path', 'method', 'field'):
+            r = self.objref(e, roots)
+            if r is not None:
+                root, nm, t = r
+                if self.mod.is_obj(t):
+                    raise TranslateError('object-typed value %s used as a whole' % nm)
+                old = self.lifted[root].get(nm)
+                if old is not None and old != t:
+                    raise TranslateError('accessor %s has two types' % nm)
+                self.lifted[root][nm] = t
+                return ('path', ['@' + nm])
+        if e[0] in ('path', 'int', 'bool'):
+            return e
+        return tuple(self.lift(x, roots) if isinstance(x, (tuple, list)) else x for x in e)
+
     # ---- driver
     def run(self):
         env = {}
         self.pvars = []
         ptys = []
+        # parameters of a registered object type (struct receivers): every zero-argument accessor chain /
+        # field chain rooted at such a parameter that ends in an integer, bool or enum becomes one Nat
+        # parameter named after the chain (`options.blowup_factor()` -> `options_blowup_factor`), typed
+        # by the accessor's declared return type; they replace the object parameter, in name order
+        roots = {}
         for prm in self.params:
             pn, pt = prm[0], prm[1]
+            tn = self.selftype if (pn == 'self' or pt == 'Self') else pt
+            if isinstance(tn, str) and tn in self.mod.objtypes:
+                roots[pn] = tn
+        if roots:
+            self.lifted = dict((r, {}) for r in roots)
+            self.body = self.lift(self.body, roots)
+        for prm in self.params:
+            pn, pt = prm[0], prm[1]
+            if pn in roots:
+                for nm in sorted(self.lifted[pn]):
+                    t = self.norm_ty(self.lifted[pn][nm])
+                    if isinstance(t, tuple):
+                        raise TranslateError('accessor %s of aggregate type' % nm)
+                    ptys.append(t)
+                    env['@' + nm] = self.param_sv(nm, t)
+                continue
             t = self.norm_ty(pt)
             ptys.append(t)
             env[pn] = self.param_sv(pn if pn != 'self' else 'self_', t)
@@ -1461,6 +1685,8 @@ class FnEmitter:
         return '\n\n'.join(out)
 
 CMP = ('==', '!=', '<', '>', '<=', '>=')
+INT_METHODS0 = ('ilog2', 'is_power_of_two', 'next_power_of_two', 'leading_zeros', 'trailing_zeros',
+                'reverse_bits', 'count_zeros')
 LEAN_RESERVED = {'at', 'from', 'in', 'end', 'do', 'then', 'else', 'fun', 'let', 'have', 'show', 'by',
                  'if', 'open', 'def', 'theorem', 'where', 'with', 'match', 'type', 'Type', 'mut', 'instance',
                  'local', 'private', 'section', 'namespace', 'variable', 'universe', 'import', 'export', 'macro', 'syntax'}
@@ -1507,6 +1733,54 @@ class ModuleCtx:
         self.sigs = {}
         self.fops = fops or {}
         self.out = []
+        # object-typed receivers (integer logic of structs): item tables searched for struct definitions
+        # and accessor signatures, names of the registered object / struct / enum types
+        self.sources = [self.items]
+        self.objtypes = set()
+        self.structs = set()
+        self.enums = set()
+
+    def add_source(self, text):
+        self.sources.append(scan_items(lex(text)))
+
+    def find(self, kind, pred):
+        for src in self.sources:
+            for key, it in src.items():
+                if it.kind == kind and pred(key):
+                    return it
+        return None
+
+    def is_obj(self, t):
+        return isinstance(t, str) and (t in self.objtypes or t == 'Vec<>') or \
+            (isinstance(t, tuple) and t[0] == 'slice')
+
+    def struct_fields(self, name):
+        it = self.find('struct', lambda k: k == 'struct ' + name)
+        if it is None:
+            raise TranslateError('definition of struct %s not found' % name)
+        return parse_struct(it)
+
+    def field_type(self, t, f):
+        if not isinstance(t, str) or t == 'Vec<>':
+            raise TranslateError('field %s of %r' % (f, t))
+        for fn_, ft in self.struct_fields(t):
+            if fn_ == f:
+                return ft
+        raise TranslateError('struct %s has no field %s' % (t, f))
+
+    def method_type(self, t, m):
+        """declared return type of the zero-argument method `m` of the object type `t`."""
+        if t == 'Vec<>' or (isinstance(t, tuple) and t[0] == 'slice'):
+            if m == 'len':
+                return 'usize'
+            raise TranslateError('method %s of a vector' % m)
+        it = self.find('fn', lambda k: re.sub(r'<[^>]*>', '', k) == t + '::' + m)
+        if it is None:
+            raise TranslateError('accessor %s::%s not found' % (t, m))
+        _name, params, ret = parse_sig(P(it.toks))
+        if len(params) != 1 or params[0][0] != 'self' or ret is None:
+            raise TranslateError('%s::%s is not a zero-argument accessor' % (t, m))
+        return t if ret == 'Self' else ret
 
     def fop(self, op):
         if op not in self.fops:
@@ -1538,6 +1812,10 @@ class ModuleCtx:
             name, params, ret, body = parse_fn(it)
             em = FnEmitter(self, leanname, params, ret, body, generic_f)
             em.hints = hints or {}
+            if '::' in key:
+                st = re.sub(r'<[^>]*>', '', key.rsplit('::', 1)[0])
+                if st in self.objtypes or st in self.structs or st in self.enums:
+                    em.selftype = st
             em.run()
             self.out.append(em.render())
         except TranslateError as ex:
@@ -1559,4 +1837,31 @@ structure FOps (F : Type) where
   double : F → F
   square : F → F
   ofNat : Nat → F
+'''
+
+# primitives of the integer-logic modules (Gen/IntOps.lean); kept apart from PRELUDE so that the
+# arithmetic modules and everything proved about them do not depend on it
+INTOPS = '''/-- `is_power_of_two` -/
+def isPow2 (x : Nat) : Bool := x != 0 && 2 ^ x.log2 == x
+
+/-- `next_power_of_two`, unbounded (the `_ok` condition of the caller states that it fits the type) -/
+def nextPow2 (x : Nat) : Nat := if x ≤ 1 then 1 else 2 ^ ((x - 1).log2 + 1)
+
+/-- number of significant bits -/
+def bitLen (x : Nat) : Nat := if x = 0 then 0 else x.log2 + 1
+
+/-- `leading_zeros` of a `w`-bit word -/
+def clz (w x : Nat) : Nat := w - bitLen x
+
+/-- `trailing_zeros` of a `w`-bit word (`w` for zero) -/
+def ctz : Nat → Nat → Nat
+  | 0, _ => 0
+  | w + 1, x => if x % 2 = 1 then 0 else ctz w (x / 2) + 1
+
+def revBitsAux : Nat → Nat → Nat → Nat
+  | 0, _, acc => acc
+  | w + 1, x, acc => revBitsAux w (x / 2) (2 * acc + x % 2)
+
+/-- `reverse_bits` of a `w`-bit word -/
+def revBits (w x : Nat) : Nat := revBitsAux w x 0
 '''
